@@ -244,6 +244,8 @@ fn apply_real(bin: &Path, dir: &Path, sc: &Scenario, op: &Op) -> Option<RealRun>
         Op::RmTable => { let _ = fs::remove_file(dir.join(TABLE_FILE)); None },
         Op::Rules { k } => { write_file(dir, RULES_FILE, render_rules(&sc.variants[*k]).as_bytes()); None },
         Op::Backdate { .. } | Op::CorruptHistory { .. } | Op::CorruptTable => None,
+        Op::SetAside { path } => { let _ = fs::rename(dir.join(path), dir.join(format!("{}.aside", path))); None },
+        Op::MoveBack { path } => { let _ = fs::rename(dir.join(format!("{}.aside", path)), dir.join(path)); None },
         Op::Build { goal } =>
         {
             let mut args = vec!["build"];
@@ -596,8 +598,64 @@ pub fn hostile_names() -> Vec<String>
     v
 }
 
+/// Names that are NOT base-62 encodings but that a lenient decoder (digit value computed from the
+/// character code relative to '0', 'a' or 'A') would map to the same 256-bit value as `name`:
+/// a foreign character standing for an in-range digit, or for digit+62 with the neighbouring digit
+/// (either side: the harness does not assume the digit order) lowered by one.
+pub fn lenient_aliases(name: &str) -> Vec<String>
+{
+    let digits = b"0123456789abcdefghijklmnopqrstuvwxyzABCDEFGHIJKLMNOPQRSTUVWXYZ";
+    let val = |c: u8| digits.iter().position(|d| *d == c);
+    let b = name.as_bytes();
+    if b.len() != 43 || b.iter().any(|c| val(*c).is_none()) { return vec![]; }
+    let mut out: BTreeSet<String> = BTreeSet::new();
+    let enc = |v: &[u8]| -> String
+    {
+        // percent-encode what is not URL-safe inside a path segment
+        let mut s = String::new();
+        for c in v
+        {
+            if c.is_ascii_alphanumeric() || b"-_.~!$&'()*+,;=:@".contains(c) { s.push(*c as char); } else { s.push_str(&format!("%{:02X}", c)); }
+        }
+        s
+    };
+    for c in 0x21u8..0x7f
+    {
+        if c.is_ascii_alphanumeric() || c == b'/' { continue; }
+        for (base, basev) in [(b'0', 0i32), (b'a', 10), (b'A', 36)]
+        {
+            let v = c as i32 - base as i32 + basev;
+            if v < 0 { continue; }
+            for i in 0..43
+            {
+                let d = val(b[i]).unwrap() as i32;
+                if v < 62 && d == v
+                {
+                    let mut x = b.to_vec();
+                    x[i] = c;
+                    out.insert(enc(&x));
+                }
+                if v >= 62 && v < 124 && d == v - 62
+                {
+                    for j in [i.wrapping_sub(1), i + 1]
+                    {
+                        if j >= 43 { continue; }
+                        let dj = val(b[j]).unwrap();
+                        if dj == 0 { continue; }
+                        let mut x = b.to_vec();
+                        x[i] = c;
+                        x[j] = digits[dj - 1];
+                        out.insert(enc(&x));
+                    }
+                }
+            }
+        }
+    }
+    out.into_iter().collect()
+}
+
 /// The complete request menu for one materialised directory; returns findings.
-fn serve_menu(port: u16, fs_model: &Fs, extra_valid: &[String], requests: &mut u64, okays: &mut u64) -> Vec<(String, String)>
+fn serve_menu(port: u16, fs_model: &Fs, extra_valid: &[String], requests: &mut u64, okays: &mut u64, aliases: &mut u64) -> Vec<(String, String)>
 {
     let mut bad: Vec<(String, String)> = vec![];
     let cache = cache_listing(fs_model);
@@ -732,6 +790,37 @@ fn serve_menu(port: u16, fs_model: &Fs, extra_valid: &[String], requests: &mut u
             }
         }
     }
+    // aliases of names that DO exist under lenient decoders: still malformed, still 404
+    for (name, data) in cache.iter().filter(|(n, _)| n.len() == 43).take(2)
+    {
+        for a in lenient_aliases(name)
+        {
+            *aliases += 1;
+            if let Some(r) = get(&format!("/files/{}", a), &mut bad)
+            {
+                if r.status != 404
+                {
+                    bad.push(("a malformed name does not give 404".into(), format!("GET /files/{} -> {}{} (a non-base-62 alias of the cached {})", a, r.status, if r.body == **data { " with the cached bytes" } else { "" }, name)));
+                }
+            }
+        }
+    }
+    if let Some((rule, Some(m))) = histd.iter().find(|(r, d)| r.len() == 43 && d.as_ref().map(|m| !m.is_empty()).unwrap_or(false))
+    {
+        let src = refsha::encode62(m.keys().next().unwrap());
+        for (path, what) in lenient_aliases(rule).into_iter().map(|a| (format!("/rules/{}/{}", a, src), "rule"))
+            .chain(lenient_aliases(&src).into_iter().map(|a| (format!("/rules/{}/{}", rule, a), "sources")))
+        {
+            *aliases += 1;
+            if let Some(r) = get(&path, &mut bad)
+            {
+                if r.status != 404
+                {
+                    bad.push(("a malformed name does not give 404".into(), format!("GET {} -> {} (a non-base-62 alias of a recorded {} hash)", path, r.status, what)));
+                }
+            }
+        }
+    }
     for path in ["/", "/files", "/files/", "/rules", "/rules/", &format!("/rules/{}", some_valid), "/current_file_states", "/cache", &format!("/cache/{}", some_valid), "/../build.rules"]
     {
         if let Some(r) = get(path, &mut bad)
@@ -836,7 +925,7 @@ pub fn run_serve(rep: &mut Report, tier: &str)
     let dirs = Arc::new(dirs);
     let idx = Arc::new(AtomicUsize::new(0));
     let found: Arc<Mutex<Vec<(usize, String, String)>>> = Arc::new(Mutex::new(vec![]));
-    let reqs = Arc::new(Mutex::new((0u64, 0u64)));
+    let reqs = Arc::new(Mutex::new((0u64, 0u64, 0u64)));
     let machinery: Arc<Mutex<Vec<String>>> = Arc::new(Mutex::new(vec![]));
     let mut hs = vec![];
     for w in 0..crate::cli::threads().min(8)
@@ -864,9 +953,9 @@ pub fn run_serve(rep: &mut Report, tier: &str)
                 // valid hashes that are not cache entries: leaf hashes, a rule ticket, an arbitrary one
                 let mut extra: Vec<String> = vec![refsha::encode62(&refsha::sha256(b"not cached anywhere")), refsha::encode62(&[0u8; 32]), refsha::encode62(&[0xff; 32])];
                 for (p, n) in fsm.map.iter() { if let Node::File(f) = n { if !p.starts_with(".ruler") { extra.push(refsha::cache_name(&f.data)); } } }
-                let (mut r, mut k) = (0u64, 0u64);
-                let bad = serve_menu(srv.port, &fsm, &extra, &mut r, &mut k);
-                { let mut g = reqs.lock().unwrap(); g.0 += r; g.1 += k; }
+                let (mut r, mut k, mut al) = (0u64, 0u64, 0u64);
+                let bad = serve_menu(srv.port, &fsm, &extra, &mut r, &mut k, &mut al);
+                { let mut g = reqs.lock().unwrap(); g.0 += r; g.1 += k; g.2 += al; }
                 for (what, detail) in bad { found.lock().unwrap().push((i, what, detail)); }
                 drop(srv);
             }
@@ -875,15 +964,16 @@ pub fn run_serve(rep: &mut Report, tier: &str)
     }
     for h in hs { let _ = h.join(); }
     for m in machinery.lock().unwrap().iter() { rep.machinery(m.clone()); }
-    let (r, k) = *reqs.lock().unwrap();
+    let (r, k, al) = *reqs.lock().unwrap();
     rep.set("states", json!(dirs.len()));
     rep.set("transitions", json!(r));
     rep.set("traces_validated_against_impl", json!(r));
     rep.set("requests", json!(r));
     rep.set("requests_answered_200_with_exact_content", json!(k));
     rep.set("hostile_names_per_endpoint_position", json!(hostile_names().len()));
+    rep.set("lenient_decoder_alias_requests", json!(al));
     rep.set("exhaustive", json!(true));
-    rep.set("rule", json!("every distinct (cache listing, decoded history) directory reached by hist on S1/S3 up to the cap, richest first; per directory the complete request menu: every cache entry, every valid hash not cached, every recorded (rule, sources) pair, every cross pair, the hostile list on /files and both /rules positions, paths outside the endpoints"));
+    rep.set("rule", json!("every distinct (cache listing, decoded history) directory reached by hist on S1/S3 up to the cap, richest first; per directory the complete request menu: every cache entry, every valid hash not cached, every recorded (rule, sources) pair, every cross pair, the hostile list on /files and both /rules positions, every non-base-62 alias of two cached names and one recorded (rule, sources) pair under the three offset-arithmetic lenient decoders, paths outside the endpoints"));
     for (sc, p, fs) in dirs.iter().take(3)
     {
         rep.push_sample(json!({"scenario": sc, "history_that_produced_the_directory": hist::ops_short(p), "cache_entries": cache_listing(fs).len(), "history_files": decode_history(fs).len()}));
@@ -917,8 +1007,8 @@ pub fn replay_serve(v: &Value) -> i32
     materialise(&fsm, &dir);
     let srv = match start_server(&bin, &dir) { Ok(s) => s, Err(e) => { eprintln!("{}", e); return 2; } };
     let extra = vec![refsha::encode62(&refsha::sha256(b"not cached anywhere"))];
-    let (mut r, mut k) = (0, 0);
-    let bad = serve_menu(srv.port, &fsm, &extra, &mut r, &mut k);
+    let (mut r, mut k, mut al) = (0, 0, 0);
+    let bad = serve_menu(srv.port, &fsm, &extra, &mut r, &mut k, &mut al);
     drop(srv);
     let _ = fs::remove_dir_all(&dir);
     let what = v["what"].as_str().unwrap_or("");
